@@ -359,25 +359,40 @@ class db_from_string:
     requires = []
     returns = "DotBracket"
     raises = {"ValueError": "len(sequence) != len(structure)", "IndexError": "?"}
-    ensures = ["fresh(result)", "result.sequence == sequence", "result.structure == structure"]
+    ensures = ["fresh(result)", "result.sequence == sequence", "result.structure == structure",
+               "decoded_wf(result.pairs, structure, len(structure))"]
     modifies = []
 
 
+@spec
+def decoded_wf(P, s, upto):
+    """what the decoder yields on ANY text: pairs of an opening and a later closing position, by increasing closing
+    position, no position used twice"""
+    return (forall(lambda q: implies(0 <= q and q < len(P), 0 <= P[q][0] and P[q][0] < P[q][1] and P[q][1] < upto
+                                     and s[P[q][0]] in OPEN and s[P[q][1]] in CLOSE))
+            and forall(lambda q, r: implies(0 <= q and q < r and r < len(P), P[q][1] < P[r][1] and P[q][0] != P[r][0])))
+
+
 class db_post_init:
-    """general contract of the decoder: may raise IndexError (closing bracket without an opening one)"""
+    """general contract of the decoder (any text): may raise IndexError (closing bracket without an opening one);
+    otherwise the pairs are well-formed and no position occurs twice"""
     target = "DotBracket.__post_init__"
     params = {"self": "DotBracket"}
     requires = []
     raises = ["IndexError"]
-    ensures = ["forall(lambda q: implies(0 <= q and q < len(self.pairs), 0 <= self.pairs[q][0] and self.pairs[q][0] < self.pairs[q][1] and self.pairs[q][1] < len(self.structure)))"]
-    ensures_labels = {0: "pairs-are-ordered-positions"}
+    ensures = ["decoded_wf(self.pairs, self.structure, len(self.structure))"]
+    ensures_labels = {0: "pairs-are-distinct-ordered-positions"}
     modifies = ["DotBracket.pairs@self"]
     locals = {"begins": "dict[char,list[int]]", "matches": "dict[char,char]"}
     loops = {0: {"touches": {"DotBracket.pairs": ["self"]}, "inv": [
         "len(self.pairs) >= 0",
         "forall(lambda ch: implies(ch in OPEN, ch in begins and len(begins[ch]) >= 0), sorts={'ch': 'char'})",
-        "forall(lambda ch, u: implies(ch in OPEN and 0 <= u and u < len(begins[ch]), 0 <= begins[ch][u] and begins[ch][u] < i), sorts={'ch': 'char'})",
-        "forall(lambda q: implies(0 <= q and q < len(self.pairs), 0 <= self.pairs[q][0] and self.pairs[q][0] < self.pairs[q][1] and self.pairs[q][1] < i))"]}}
+        # every stack holds, in increasing order, earlier positions that carry its own bracket character ...
+        "forall(lambda ch, u: implies(ch in OPEN and 0 <= u and u < len(begins[ch]), 0 <= begins[ch][u] and begins[ch][u] < i and self.structure[begins[ch][u]] == ch), sorts={'ch': 'char'})",
+        "forall(lambda ch, u, v: implies(ch in OPEN and 0 <= u and u < v and v < len(begins[ch]), begins[ch][u] < begins[ch][v]), sorts={'ch': 'char'})",
+        # ... none of which has been paired yet
+        "forall(lambda ch, u, q: implies(ch in OPEN and 0 <= u and u < len(begins[ch]) and 0 <= q and q < len(self.pairs), self.pairs[q][0] != begins[ch][u]), sorts={'ch': 'char'})",
+        "decoded_wf(self.pairs, self.structure, i)"]}}
 
 
 @spec
@@ -564,6 +579,20 @@ class make_dot_bracket:
     }
 
 
+class regions_c:
+    """BpSeq.__regions: (start, end, length) of every stem, in 5' order"""
+    target = "BpSeq.__regions"
+    params = {"self": "BpSeq"}
+    requires = ["valid(self.entries)"]
+    returns = "list[tuple[int,int,int]]"
+    ghost_returns = {"GS": "list[int]"}
+    ensures = ["regions_match(self.entries, result)", "regions_cover(self.entries, result, GS)"]
+    ensures_labels = {0: "regions-are-the-stems", 1: "every-pair-in-a-region"}
+    raises = []
+    modifies = []
+    ghost_exit = ["let GS = __stems_entries_GS"]
+
+
 class fcfs:
     target = "BpSeq.fcfs"
     params = {"self": "BpSeq"}
@@ -601,5 +630,6 @@ CONTRACTS = {
     "BpSeq.__stems_entries": stems_entries,
     "BpSeq.__stems_entries@inverse": stems_entries_inverse,
     "BpSeq.__make_dot_bracket": make_dot_bracket,
+    "BpSeq.__regions": regions_c,
     "BpSeq.fcfs": fcfs,
 }
